@@ -446,6 +446,12 @@ func registerStrings(e *Engine) {
 			}
 			return TupleV{E: []Value{in.newRegexp(p, ps, pos), IfaceV{}}}
 		}
+		if r, found := in.lookupInverse(ps, "re"); found {
+			cp := *r.re
+			o := in.newObj(OpaqueV{Tag: "regexp", Data: &cp}, nil, "regexp")
+			o.heap = true
+			return TupleV{E: []Value{PtrV{obj: o}, IfaceV{}}}
+		}
 		ok := in.uf("regexp.Compile.ok", 0, in.strTerms(ps)...)
 		if in.branch(ok) {
 			o := in.newObj(OpaqueV{Tag: "regexp", Data: &reModel{pat: ps}}, nil, "regexp")
@@ -470,7 +476,10 @@ func registerStrings(e *Engine) {
 		}
 		rm := p.obj.val.(OpaqueV).Data.(*reModel)
 		if rm.alt != nil {
-			return in.str.Ite(rm.sel, rm.pat, rm.alt.pat)
+			res := in.str.Ite(rm.sel, rm.pat, rm.alt.pat)
+			// compiling this text again yields the same choice of expressions
+			in.regInverse(res, invRec{kind: "re", re: rm})
+			return res
 		}
 		return rm.pat
 	})
